@@ -151,6 +151,7 @@ def entries(fx):
 
 def run(ctx, tier):
     ctx.rule("H1", "the host kind is stored whenever the host is stored, on every path of every public entry")
+    ctx.rule("H4", "IPv6 serializer: the recorded longest zero run is replaced only by a strictly longer one (first longest wins)")
     cfgs = C.configs_for(tier, thorough=["release", "ssse3", "avx512", "devchecks", "amalgamated", "nopattern"])
     fxs = C.load_configs(ctx, cfgs)
     for name in cfgs:
@@ -188,3 +189,30 @@ def check(ctx, fx):
                      "reported host kind keeps describing the previous host" % (ex_["text"][:60], txt),
                      where=ex_["loc"].replace("/repo/", ""), path=path)
     ctx.floor("H1", len(total_hosts), 20, "host store sites seen")
+
+    # ---- H4: the IPv6 serializer compresses the *first* longest run of zero pieces ------------
+    # (the Standard: "the first longest sequences of ... 0"): the best run is replaced only by a strictly
+    # longer one; with >= a later run of equal length would win.
+    f = fx.fn1("ada::serializers::find_longest_sequence_of_ipv6_pieces")
+    blocks = {b["id"]: b for b in f["blocks"]}
+    found = 0
+    for b in f["blocks"]:
+        c = C.term_cond(b)
+        c0 = X.strip(c) if c is not None else None
+        if not (isinstance(c0, dict) and c0.get("k") == "bin" and c0.get("op") in (">", ">=", "<", "<=")):
+            continue
+        tb = [s["to"] for s in b["succ"] if s["when"] == "true"]
+        if not tb:
+            continue
+        writes = [X.show(X.strip(n["lhs"])) for s in blocks[tb[0]]["stmts"] for n in X.stmt_nodes(s)
+                  if n.get("k") == "assign"]
+        if "compress_length" not in writes:
+            continue
+        found += 1
+        l, r, op = X.show(X.strip(c0["l"])), X.show(X.strip(c0["r"])), c0["op"]
+        strict = (op == ">" and r == "compress_length") or (op == "<" and l == "compress_length")
+        ctx.check("H4", "ipv6 serializer keeps the first longest zero run", strict, "%s %s %s" % (l, op, r),
+                  "the best zero run is replaced when `%s %s %s`: a later run of equal length wins, but the Standard "
+                  "compresses the first longest run ([1:0:0:2:0:0:3:4] must give [1::2:0:0:3:4])" % (l, op, r),
+                  where=f["loc"].replace("/repo/", ""))
+    ctx.floor("H4", found, 1, "best-run update in find_longest_sequence_of_ipv6_pieces")
